@@ -7,7 +7,8 @@ EXPLANATION = (
     'All-paths rules over MIR: (r1) the persisted check points and the final index are written only by genesis init and '
     'finalize_check_points; (r2) in finalize_check_points both writes are reachable only after the two "enough proven peers" '
     'tests rejected `len < required`, and only through the Some((index, cp)) value that is assigned solely on the accepting edge '
-    'of `count_max >= required_peers_count`; (r3) append-only: the first written index is last_final + 1, the written slice '
+    'of `count_max >= required_peers_count`, with the peer set narrowed by retain(get(index) == Some(cp)) on every path on which not all '
+    'peers agreed, and the written vector taken from the narrowed set; (r3) append-only: the first written index is last_final + 1, the written slice '
     'starts at element 1, and the new final index is last_final + index with index drawn from a range starting at 1; (r4) the '
     'quorum is (max_outbound + 1) / 2; (r5) a peer\'s unfinalized vector grows only in add_check_points, behind the alignment, '
     'continuity and first-hash-equality tests, and shrinks only in remove_first_n_check_points.')
